@@ -262,20 +262,25 @@ theorem C16_select_after (isWord : Char → Bool) (lower : List Char → List Ch
 /-- `asciiWord` (ASCII letters, digits, underscore) satisfies the two assumptions on `\w`. -/
 example : WordSane asciiWord ∧ KwWord asciiWord := ⟨asciiWord_sane, asciiWord_kw⟩
 
-/-- `a or b and not c` is `a or (b and (not c))`; `nota` is an identifier; a `$` is rejected at its column;
-a missing operand is rejected at the end; the empty string is false. -/
-example :
-    compile asciiWord "a or b and not c".toList
-      = .ok (.or (.ident ['a']) (.and (.ident ['b']) (.not (.ident ['c'])))) ∧
-    compile asciiWord "(a or b) and nota".toList
-      = .ok (.and (.or (.ident ['a']) (.ident ['b'])) (.ident ['n', 'o', 't', 'a'])) ∧
-    compile asciiWord "a:b[1]/c\\d or x-y".toList
-      = .ok (.or (.ident "a:b[1]/c\\d".toList) (.ident "x-y".toList)) ∧
-    compile asciiWord "a $".toList = .error (.syntax 3) ∧
-    compile asciiWord "a b $".toList = .error (.syntax 3) ∧
-    compile asciiWord "a and".toList = .error (.syntax 6) ∧
-    compile asciiWord ")".toList = .error (.syntax 1) ∧
-    compileEval asciiWord (fun _ => true) " \t".toList = .ok false := by decide +kernel
+/-! Each fact is a separate `example` (a failing `decide +kernel` on a long conjunction is very slow to report). -/
+/-- `a or b and not c` is `a or (b and (not c))`. -/
+example : compile asciiWord "a or b and not c".toList
+    = .ok (.or (.ident ['a']) (.and (.ident ['b']) (.not (.ident ['c'])))) := by decide +kernel
+/-- Parentheses override precedence; `nota` is an identifier. -/
+example : compile asciiWord "(a or b) and nota".toList
+    = .ok (.and (.or (.ident ['a']) (.ident ['b'])) (.ident ['n', 'o', 't', 'a'])) := by decide +kernel
+/-- The whole identifier alphabet in use. -/
+example : compile asciiWord "a:b[1]/c\\d or x-y".toList
+    = .ok (.or (.ident "a:b[1]/c\\d".toList) (.ident "x-y".toList)) := by decide +kernel
+/-- A `$` is rejected at its column. -/
+example : compile asciiWord "a $".toList = .error (.syntax 3) := by decide +kernel
+/-- The lexer is lazy: the syntax error in front of the `$` is reported first. -/
+example : compile asciiWord "a b $".toList = .error (.syntax 3) := by decide +kernel
+/-- A missing operand is rejected at the end of the input. -/
+example : compile asciiWord "a and".toList = .error (.syntax 6) := by decide +kernel
+example : compile asciiWord ")".toList = .error (.syntax 1) := by decide +kernel
+/-- Blanks only: false. -/
+example : compileEval asciiWord (fun _ => true) " \t".toList = .ok false := by decide +kernel
 
 /-- A rendering with irregular blanks (hypotheses of `C16_lex_roundtrip` on concrete data). -/
 def exItems : List (List Char × Tok) :=
@@ -294,12 +299,20 @@ example : GTop [.not, .ident ['a'], .or, .ident ['b'], .and, .ident ['c']]
   .expr (.or (l := [.not, .ident ['a']]) (.ofAnd (.ofNot (.not (.ident _)))) (.and (l := [.ident ['b']]) (.ofNot (.ident _)) (.ident _)))
 
 /-- Matchers on a concrete task: `-k` is a case-insensitive substring test over id, attributes and markers, `-m` is exact. -/
-example :
-    let lowerA (s : List Char) : List Char := s.map Char.toLower
-    let t : TaskInfo := { name := "src/task_Data.py::task_Prepare".toList, attrs := ["Custom".toList], markers := ["slow".toList] }
-    kwMatch lowerA (kwNames t) "PREP".toList = true ∧ kwMatch lowerA (kwNames t) "custom".toList = true ∧
-    kwMatch lowerA (kwNames t) "SLO".toList = true ∧ kwMatch lowerA (kwNames t) "fit".toList = false ∧
-    markMatch t.markers "slow".toList = true ∧ markMatch t.markers "slo".toList = false ∧
-    markMatch t.markers "Slow".toList = false := by decide +kernel
+def exLower (s : List Char) : List Char := s.map Char.toLower
+def exTask : TaskInfo :=
+  { name := "src/task_Data.py::task_Prepare".toList, attrs := ["Custom".toList], markers := ["slow".toList] }
+example : kwMatch exLower (kwNames exTask) "PREP".toList = true := by decide +kernel
+example : kwMatch exLower (kwNames exTask) "custom".toList = true := by decide +kernel
+example : kwMatch exLower (kwNames exTask) "SLO".toList = true := by decide +kernel
+example : kwMatch exLower (kwNames exTask) "fit".toList = false := by decide +kernel
+example : markMatch exTask.markers "slow".toList = true ∧ markMatch exTask.markers "slo".toList = false ∧
+    markMatch exTask.markers "Slow".toList = false := by decide +kernel
+/-- A selection: `-k "prep and not slow"` on two tasks selects the second only; `-m slow` the first. -/
+def exTask2 : TaskInfo := { name := "task_prepare_fast".toList, attrs := [], markers := [] }
+example : selectByKeyword asciiWord exLower "prep and not slow".toList [exTask, exTask2] = .ok (some [1]) := by
+  decide +kernel
+example : selectByMark asciiWord "slow".toList [exTask, exTask2] = .ok (some [0]) := by decide +kernel
+example : selectByAfter asciiWord exLower "PREPARE".toList [exTask, exTask2] = .ok [0, 1] := by decide +kernel
 
 end Pytask.SelExpr
